@@ -185,3 +185,85 @@ contract(
          'slot has neither value nor default: TypeError before any invocation); its exception '
          'escapes through try_with_lazy_message (original or decorated proxy)',
 )
+
+
+# --- build.<locals>._build (C01, C02): a Buildable node is built by exactly one call_buildable ------------
+from contracts import copying as CP      # noqa: E402
+from pyvc.sorts import zip_last          # noqa: E402
+from pyvc.expr import zip_axioms         # noqa: E402
+
+FD_ = 'fiddle/_src/daglish.py'
+defclass('SubTraversalResult', 'object')
+
+
+def _fmc_post(c):
+  """Assumed contract of state.flattened_map_children(value) for a Buildable value: the metadata is
+  the one `value.__flatten__()` yields (callable, names that enumerate the argument store, frozen
+  tags, history), `values` holds one mapped result per name; mapping the children (which builds
+  them) does not touch the internals of `value` itself."""
+  h0, h = c.old, c.heap
+  v = c['value']
+  res = c.result
+  r = ref(res)
+  meta, vals = h.fld(r, 'metadata'), h.fld(r, 'values')
+  m = ref(meta)
+  names = h.fld(m, 'argument_names')
+  g = CF.bsig(h0, v)
+  A0 = ref(CF.bfields(h0, v)[1])
+  has0 = h0.hasarr(A0)
+  N = h.eltarr(ref(names))
+  n = h.len(ref(names))
+  i = z3.Int('fm_i')
+  k = z3.Const('fm_k', Val)
+  return z3.And(
+      is_VRef(res), r >= h0.alloc, cls_is(h.cls(r), 'SubTraversalResult'),
+      CF.MetaObj(h, meta), m < h.alloc,
+      h.fld(m, 'fn_or_cls') == h0.fld(ref(v), '__fn_or_cls__'),
+      CP.SeqObj(h, names), CP.SeqObj(h, vals), h.len(ref(vals)) == n,
+      # names enumerate the argument store the Buildable had when it was flattened
+      FA([i], z3.Implies(z3.And(0 <= i, i < n), has0[N[i]]), patterns=[N[i]]),
+      FA([k], z3.Implies(has0[k], zip_last(N, n, k) >= 0), patterns=[zip_last(N, n, k)]),
+      zip_axioms(N, n),
+      # the Buildable itself is as it was
+      CF.internals_same(h, h0, v), CF.store_eq(h, h0, v), CF.BInv(h, v),
+      h.fld(ref(CF.bfields(h0, v)[0]), 'signature') == h0.fld(ref(CF.bfields(h0, v)[0]), 'signature'))
+
+
+contract('daglish.State.flattened_map_children', FD_, 'State.flattened_map_children', abstract=True,
+         params=['self', 'value'],
+         requires=lambda c: CF.BInv(c.old, c['value']),
+         ensures=_fmc_post, may_raise=('BaseException',), havoc_all=True,
+         ghost_writes=(G_CALLS, G_LAST_SELF, CF.G_UCALLS, CF.G_ULAST),
+         note='assumed (see the docstring of _fmc_post); the children are built recursively through the '
+              'traversal, i.e. arbitrary user code runs')
+contract('daglish.State.map_children', FD_, 'State.map_children', abstract=True, params=['self', 'value'],
+         may_raise=('BaseException',), havoc_all=True,
+         ghost_writes=(G_CALLS, G_LAST_SELF, CF.G_UCALLS, CF.G_ULAST),
+         note='assumed: rebuilds a container from its recursively built children (arbitrary user code)')
+contract('daglish.State.current_path', FD_, 'State.current_path', abstract=True, params=['self'],
+         allocates=False, note='assumed: pure accessor')
+
+
+def _bb_req(c):
+  h = c.old
+  v = c['value']
+  return z3.And(is_VRef(c['state']), z3.Not(cls_in(h.cls(ref(c['state'])), 'Buildable')),
+                z3.Implies(isref(h, v, 'Buildable'), CF.BInv(h, v)))
+
+
+contract(
+    'building.build._build', FB, 'build.<locals>._build',
+    requires=_bb_req,
+    # (what the node is built with is the precondition of call_buildable / __build__, checked at
+    # the call sites; here: a Buildable node costs exactly one call_buildable, after its children)
+    ensures=lambda c: z3.BoolVal(True),
+    may_raise=('BaseException',), havoc_all=True,
+    ghost_writes=(G_CALLS, G_LAST_SELF, CF.G_UCALLS, CF.G_ULAST),
+    calls={'state.flattened_map_children': 'daglish.State.flattened_map_children',
+           'state.map_children': 'daglish.State.map_children'},
+    props=('C01', 'C02'),
+    note='a Buildable node: children first (flattened_map_children), then arguments = '
+         'metadata.arguments(mapped values) — a canonical store for the node\'s signature, which is the '
+         'precondition of call_buildable, an obligation here — then exactly one call_buildable(node, '
+         'arguments); any other value: state.map_children(value)',
+)
